@@ -8,6 +8,8 @@ import FordModel.Fs
 import FordModel.FsPages
 import FordModel.Lemmas.Fs
 import FordModel.Lemmas.FsPages
+import FordModel.FsGlob
+import FordModel.Lemmas.FsGlob
 namespace Ford.C19
 open Ford Ford.Fs
 
@@ -542,5 +544,122 @@ example : copyEscapes { loc := ["sub".toList], stem := "index".toList, copies :=
     { item := "../../../victim".toList, tree := none } = true := by decide
 example : copyEscapes { loc := [], stem := "index".toList, copies := [], files := [] }
     { item := "/abs/img".toList, tree := none } = true := by decide
+
+/-! ## Round 6 - directory names are arbitrary strings: the pattern test of the source search and the refusal -/
+
+section Names
+open Ford.FsGlob
+
+/-- **`fnmatch` on a pattern without `*`, `?`, `[` is string equality** - for every name and every
+    such pattern, of any length (the base case of everything below: only these three characters
+    are given a meaning). -/
+theorem fnmatch_plain_iff_eq (s p : Str) (hp : plain p = true) : fnmatch s p = true ↔ s = p :=
+  fnmatch_plain_iff s p hp
+
+/-- **Clause "output directory excluded from source discovery", the test itself.** For a directory
+    whose path contains no pattern character, `fnmatch(str(src), f"{dir}/*")` holds exactly for the
+    strings that begin with `<dir>/` - any depth below it (`*` crosses `/`), not the directory's
+    look-alike siblings (`<dir>s/...`), not the directory itself. -/
+theorem exclude_plain_iff_prefix (d f : Str) (hd : plain d = true) :
+    excludedBy d f = true ↔ (d ++ ['/']) <+: f :=
+  excludedBy_plain_iff d f hd
+
+/-- **... the source search, code as it is (partial).** Whatever the user's `exclude_dir` entries
+    and whatever files were found: a file whose path begins with `<output_dir>/` is not among the
+    files `find_all_files` keeps - under the decidable hypothesis that the output directory's
+    path contains none of `*`, `?`, `[` (`plain`).  Holds for both variants of the code
+    (`Generated.C19.excludeOutputByPath`). -/
+theorem output_excluded_partial (ue : List Str) (out : Str) (files : List Str) (f : Str)
+    (hp : plain out = true) (hf : (out ++ ['/']) <+: f) : f ∉ keepSourcesGen ue out files := by
+  intro h
+  have h1 := keepSources_sub _ ue out files f h
+  have h2 := ((mem_dropExcluded _ _ _).1 h1).2 out (by simp)
+  rw [(excludedBy_plain_iff out f hp).2 hf] at h2
+  exact absurd h2 (by simp)
+
+/-- **... and why the hypothesis is needed (finding C19-output-exclude-glob).** Output directory
+    `/w [v2]/p/src/doc` below the source directory: the copy an earlier run left in
+    `doc/src/old.f90` is kept as a source file by the pattern test (`[v2]` is read as "one of `v`,
+    `2`"), a look-alike directory `/w 2/p/src/doc` that has nothing to do with the run is dropped
+    instead; with the location test of the repair exactly the files below the output directory go. -/
+theorem output_exclude_glob_witness :
+    keepSources false [] "/w [v2]/p/src/doc".toList
+        ["/w [v2]/p/src/a.f90".toList, "/w [v2]/p/src/doc/src/old.f90".toList]
+      = ["/w [v2]/p/src/a.f90".toList, "/w [v2]/p/src/doc/src/old.f90".toList]
+    ∧ excludedBy "/w [v2]/p/src/doc".toList "/w 2/p/src/doc/x.f90".toList = true
+    ∧ keepSources true [] "/w [v2]/p/src/doc".toList
+        ["/w [v2]/p/src/a.f90".toList, "/w [v2]/p/src/doc/src/old.f90".toList]
+      = ["/w [v2]/p/src/a.f90".toList] := by
+  decide
+
+/-- **... repaired variant, every name.** With the location test (`output_dir in src.parents`) no
+    kept file has the output directory among its ancestors - for every output path (any characters
+    in any component), every list of user patterns, every file list; no hypothesis. -/
+theorem output_excluded (ue : List Str) (out : Str) (files : List Str) (f : Str)
+    (hf : belowStr out f = true) : f ∉ keepSources true ue out files := by
+  intro h
+  simp only [keepSources, if_true] at h
+  have := (List.mem_filter.1 h).2
+  simp [hf] at this
+
+/-- ... and the location test drops nothing else: a file that no pattern matches and that is not
+    below the output directory is kept (the repair cannot lose a source file). -/
+theorem output_excluded_only (ue : List Str) (out : Str) (files : List Str) (f : Str)
+    (hin : f ∈ files) (hu : ∀ d ∈ ue ++ [out], excludedBy d f = false) (hf : belowStr out f = false) :
+    f ∈ keepSources true ue out files := by
+  simp only [keepSources, if_true]
+  exact List.mem_filter.2 ⟨(mem_dropExcluded _ _ _).2 ⟨hin, hu⟩, by simp [hf]⟩
+
+/-- **Clause "for source directories FORD detects that case and refuses", every legal name.** On
+    the path strings `normalise_paths` produces - components made of *any* characters, pattern
+    characters, blanks, quotes included - the refusal holds iff the output directory is, component
+    by component, a source directory or above one.  No hypothesis on the names. -/
+theorem refusal_any_name (out : Str) (srcs : List Str) :
+    refusesStr out srcs = true ↔ ∃ s ∈ srcs, norm (splitSlash out) <+: norm (splitSlash s) := by
+  simp only [refusesStr, List.any_eq_true]
+  constructor
+  · rintro ⟨s, hs, h⟩
+    exact ⟨s, hs, (self_or_parent_iff _ _).1 h⟩
+  · rintro ⟨s, hs, h⟩
+    exact ⟨s, hs, (self_or_parent_iff _ _).2 h⟩
+
+/-- The same decision taken with the pattern test of the source search
+    (`fnmatch(f"{src}/", f"{out}/*")`) agrees with the textual prefix **only** when the output
+    path contains no pattern character ... -/
+theorem refusal_glob_plain (out : Str) (srcs : List Str) (hp : plain out = true) :
+    refusesGlob out srcs = true ↔ ∃ s ∈ srcs, (out ++ ['/']) <+: (s ++ ['/']) := by
+  simp only [refusesGlob, List.any_eq_true]
+  constructor
+  · rintro ⟨s, hs, h⟩
+    exact ⟨s, hs, (excludedBy_plain_iff out _ hp).1 h⟩
+  · rintro ⟨s, hs, h⟩
+    exact ⟨s, hs, (excludedBy_plain_iff out _ hp).2 h⟩
+
+/-- ... and is wrong in both directions otherwise: `/w [v2]/api` with the sources in
+    `/w [v2]/api/src` is **not** refused (the run would wipe its own sources), `/w/a*` is refused
+    for the unrelated source directory `/w/abc/src`; the component-wise test decides both
+    correctly. -/
+theorem refusal_glob_unsound_witness :
+    refusesGlob "/w [v2]/api".toList ["/w [v2]/api/src".toList] = false
+    ∧ refusesStr "/w [v2]/api".toList ["/w [v2]/api/src".toList] = true
+    ∧ refusesGlob "/w/a*".toList ["/w/abc/src".toList] = true
+    ∧ refusesStr "/w/a*".toList ["/w/abc/src".toList] = false := by
+  decide
+
+/-- non-vacuity: the pattern language is really there (class, negated class, range, `?`, `*`
+    across `/`, an unclosed `[` is literal, `]` first in a class is a member) -/
+example : fnmatch "ab2/x".toList "a?[v2]*".toList = true
+    ∧ fnmatch "a[".toList "a[".toList = true
+    ∧ fnmatch "x]".toList "x[]]".toList = true
+    ∧ fnmatch "xw".toList "x[!w]".toList = false
+    ∧ fnmatch "[v2]".toList "[v2]".toList = false := by decide
+
+/-- non-vacuity of `output_excluded_partial` / `exclude_plain_iff_prefix` -/
+example : plain "/w/p/doc".toList = true
+    ∧ keepSources false ["/w/p/src/old*".toList] "/w/p/doc".toList
+        ["/w/p/doc/src/a.f90".toList, "/w/p/docs/b.f90".toList, "/w/p/src/older/c.f90".toList, "/w/p/src/d.f90".toList]
+      = ["/w/p/docs/b.f90".toList, "/w/p/src/d.f90".toList] := by decide
+
+end Names
 
 end Ford.C19
